@@ -30,11 +30,35 @@ TRUSTED_BASE = [
     "no axioms: every theorem of coq/C02/Properties.v is 'Closed under the global context'",
     "C integer semantics of coq/Base/CInt.v in Gnu mode (ISO C11 + -fwrapv + gcc/clang documented behaviour); int = 32, long = long long = pointer = 64 bits",
     "bint(160) arithmetic = exact integers reduced to 160 bits (proved for the limb algorithms under property C17; used here as the meaning of bn values)",
-    "translator harness/C04/cparse.py (C helper text -> mini-C terms) and checks/C02.py:gen; harness/C02/fold.lua (calls types.lua/cemitter.lua through their Lua API with hand-built attrs), harness/C02/driver.nelua, the probe generator in checks/C02.py",
+    "CROSS-PROPERTY FILES: harness/C04/cparse.py (C helper text -> mini-C terms) and harness/C04/types.lua (type table, promotion ladders) are owned by property C04 and used here; checks/C02.py:gen; harness/C02/fold.lua (calls types.lua/cemitter.lua through their Lua API with hand-built attrs), harness/C02/driver.nelua, the probe generator in checks/C02.py",
     "extraction: Require Extraction + ExtrOcamlBasic only; ocaml/zutil.ml + coq/C02/driver.ml",
     "modelled rather than verified: types.lua fold functions are mirrored by hand in coq/C02/Model.v (tie: correspondence on every check); analyzer.lua's propagation of attr.value is exercised only through the end-to-end probe programs",
 ]
+THEOREM_CLASSES = {
+    "C02_rt_is_modular_add": "main", "C02_rt_is_modular_sub": "main", "C02_rt_is_modular_mul": "main", "C02_rt_is_modular_unm": "main",
+    "C02_rt_is_modular_bitwise": "main", "C02_rt_is_modular_idiv_mod": "main", "C02_rt_shift_helpers": "main",
+    "C02_rt_is_modular_shifts_refuted": "refutation", "C02_rt_is_modular_shifts_partial": "main",
+    "C02_rt_context_independent_refuted": "refutation", "C02_rt_context_independent_partial": "main",
+    "C02_comparisons_agree": "main", "C02_fold_agrees_partial_arith": "main", "C02_fold_exact_partial": "main",
+    "C02_wrap_value_correct": "main", "C02_baked_literal": "main", "C02_conv_rejected_iff": "definitional",
+}
+UNPROVED = [
+    "fold_agrees (Proofs.fold_agrees_at) is proved for + - * only (typed operands, all types and values); for // % /// %%% | ~ & << >> >>> the same statement is evaluated by the oracle on every case (proved pieces: fold exactness for + - * // % incl. untyped literals when the result fits 64 bits, run-time modularity of every operator but /// %%% and unsigned // %, comparisons)",
+    "run-time theorems are about the STORED value of an operator result; a result consumed directly by another operator is covered by C02_rt_context_independent_refuted/_partial and a fixed list of nested probes only",
+    "`///` `%%%` and unsigned `//` `%` at run time, unary `~` on both sides, fold_un: correspondence only",
+    "half-constant forms (one operand a baked literal), the C type of the emitted literal (Model.lit_ctype), untyped literals at run time: correspondence/probes only",
+    "floats (float32/float64 operands, `/`, `^`): no theorem; fold vs run time compared bit for bit on generated probes; float32 folding is an open finding",
+    "explicit casts of constants, float -> integer constant conversion (demotefloat, fractional rejection), conversions from a source type other than int64: not modelled, not tested here",
+    "analyzer.lua propagation of attr.value / <comptime> variables: exercised only through the end-to-end probe programs",
+    "C02_conv_rejected_iff is definitional (conv_accepts := in_rangeb); its link to C04's nelua_assert_narrow_ predicate is C04_narrow_fires_iff, in another sub-project",
+]
+MANIFEST_ENTRY = {
+    "text": "proof, partial: theorems (integers, all types and values) for the run-time side of + - * unary- | ~ & // % (signed) << >> >>> (counts in int64) and all comparisons, for wrap_value / literal re-wrap, and for fold = run time on + - *; the full fold = run-time statement for the other operators, half-constant forms, untyped literals at run time and nested (unstored) sub-int results rest on differential testing (two refuted statements recorded); floats: differential testing only",
+    "note": "trusted: Coq kernel, Base/CInt Gnu mode = gcc/clang, bint(160) = Z mod 2^160 (C17), helpers taken from the generated C through harness/C04/cparse.py, type table through harness/C04/types.lua (files owned by property C04), hand model of types.lua fold functions",
+    "technique": "machine-checked proof in Coq over an executable model + helpers scraped from the generated C + extracted-model/implementation correspondence and probe programs",
+}
 ASSUMPTIONS = [
+    "the run-time model (Model.rt_bin) is the value of an operator result once stored in a variable of its Nelua type or passed as an argument; results consumed directly by another operator are modelled separately (rt_bin_c / rt_nested_l) and only for the probes listed in NESTED_PROBES",
     "gcc/clang implement the Gnu mode of Base.CInt",
     "floats (float32/float64 operands, `/` and `^` on integers): correspondence only - fold (Lua doubles in the compiler) vs run time (C doubles / libm) compared bit for bit on generated cases; no theorem",
     "correspondence is differential testing, not a proof that model = code",
@@ -392,7 +416,7 @@ def classify(op, lt, rt, a, b, F, R, E):
     if T and E is not None and not isinstance(E, bool) and R[2] != wrap(T, E):
         if op in SHIFTOPS:
             if b >= (1 << 63):
-                return "runtime-shift-count-uint64-above-int64:" + op
+                return "cbuiltins.nelua_%s_:count-parameter-is-int64:%s:%s" % (op, lt, rt)
             return "runtime-shift-count-narrowed:" + op
         return "runtime-mixed-signedness-in-plain-C-operator:" + op
     if op in CMPOPS:
@@ -617,6 +641,31 @@ def correspond(ctx):
                 violation("model-mismatch:conv", "conv model differs on `%s`" % inp, {"case": inp, "implementation": o, "model": m}, failing=False, kind="correspondence")
 
     pstats = probe_stream(ctx, mdriver, violation)
+    extra_probe_stream(ctx, mdriver, violation, pstats)
+    # ---- untyped literals through the fold API (types.promote_type_for_attrs): model vs types.lua
+    ul_in, ul_m = [], []
+    for op in ("add", "sub", "mul", "idiv", "mod", "tdiv", "tmod", "bor", "bxor", "band"):
+        for t in ITYPES:
+            L = lattice(t)
+            for _ in range(ctx.scale(6, 40)):
+                a = ctx.rng.choice(L)
+                l = ctx.rng.choice([1, 2, 3, -1, -2, 127, 128, 255, 256, 300, -129, 32768, 65536, 70000, 2147483648, 4294967296, -2147483649, 9223372036854775807])
+                if op in DIVOPS and (l == 0 or a == 0):
+                    continue
+                ul_in.append("bin %s %s int64 %d %d 0 1" % (op, t, a, l)); ul_m.append("fold %s %s %s %s %s 0 1" % (op, tb(t), tb("int64"), hx(a), hx(l)))
+                ul_in.append("bin %s int64 %s %d %d 1 0" % (op, t, l, a)); ul_m.append("fold %s %s %s %s %s 1 0" % (op, tb("int64"), tb(t), hx(l), hx(a)))
+    ul_o = run_parallel([interp, os.path.join(vlib.VERIF, "harness", ID, "fold.lua")], ul_in, 2, env=vlib.lua_env())
+    ul_mo = run_parallel([mdriver], ul_m, 1)
+    n_untyped = 0
+    for inp, o, m in zip(ul_in, ul_o, ul_mo):
+        n_untyped += 1
+        F = parse_fold_impl(o)
+        mine = "T %s %s" % (tb(F[1]), hx(F[2])) if F[0] == "T" else ("E 1" if F[0] == "E" and "divide by zero" in F[1] else ("E 2" if F[0] == "E" and "divide overflow" in F[1] else "X"))
+        if mine != m:
+            n_mismatch += 1
+            violation("model-mismatch:fold-untyped", "fold model (untyped literal rule) differs from types.lua on `%s`: model `%s`, implementation `%s`" % (inp, m, o),
+                      {"case": inp, "model": m, "implementation": o, "no_longer_checks": "correspondence stream C02/fold-untyped"}, failing=False, kind="correspondence")
+    pstats["untyped_fold_cases"] = n_untyped
     return {
         "evaluations": len(cases) + len(lit_in) + pstats["probes"],
         "distinct_nontrivial": len(nontrivial),
@@ -629,10 +678,7 @@ def correspond(ctx):
         "oracle_failures_by_key": per_key,
         "model_mismatches": n_mismatch,
         "traces_validated_against_impl": 2 * len(cases) + len(lit_in),
-        "unproved": ["fold_agrees (Proofs.fold_agrees_at) is proved for + - * (all types, all values); for // % /// %%% | ~ & << >> >>> the same statement is evaluated by the oracle on every case, not proved (proved pieces: fold exactness for // %, run-time modularity of every operator, comparisons)",
-                     "still false on the repaired tree: uint64/usize shift counts >= 2^63 at run time (C02_rt_shift_uint64_count_refuted); float32 operations folded in double precision (known findings float:*)",
-                     "floating point folding (`/`, `^`, float operands): correspondence only, no theorem",
-                     "analyzer.lua propagation of attr.value / comptime variables: end-to-end probes only"],
+        "unproved": UNPROVED,
     }
 
 
@@ -673,6 +719,91 @@ FLOAT_OPS = ["add", "sub", "mul", "div", "idiv", "tdiv", "mod", "tmod", "pow", "
 OPSYM.update({"div": "/", "pow": "^"})
 
 
+def _f32(x):
+    import struct
+    try:
+        return struct.unpack("<f", struct.pack("<f", x))[0]
+    except OverflowError:
+        return float("inf") if x > 0 else float("-inf")
+
+
+def predict_float_fold(op, lt, rt, a, b):
+    """What the compiler's fold bakes for a float operation, by the unchanged code: the operation on
+    Lua doubles (types.lua make_float_binary_opfunc / make_integral_binary_op), then - for a float32
+    result - the 9-digit decimal literal rounded by the C compiler.  None when not predictable."""
+    import math
+    try:
+        x, y = float(a), (float(b) if b is not None else None)
+        def fdiv(p, q):
+            if q == 0:
+                if p == 0 or p != p:
+                    return float("nan")
+                neg = (p < 0) != (math.copysign(1.0, q) < 0)
+                return float("-inf") if neg else float("inf")
+            return p / q
+        if op in ("tdiv", "tmod") and not lt.startswith("float") and x == int(x) and y == int(y) and y != 0 and abs(x) != float("inf") and abs(y) != float("inf"):
+            # IntegralType.tdiv/tmod -> bint.tdivmod: integer-valued float operands are computed as big integers
+            ia, ib = int(x), int(y)
+            q = abs(ia) // abs(ib)
+            q = -q if (ia < 0) != (ib < 0) else q
+            r = abs(ia) % abs(ib)
+            r = -r if ia < 0 else r
+            v = float(q if op == "tdiv" else r)      # an integer zero has no sign
+        elif op == "add": v = x + y
+        elif op == "sub": v = x - y
+        elif op == "mul": v = x * y
+        elif op == "div": v = fdiv(x, y)
+        elif op == "idiv":
+            v = fdiv(x, y)
+            v = float(math.floor(v)) if v == v and abs(v) != float("inf") else v
+        elif op == "tdiv":
+            q = fdiv(x, y)
+            v = q if (q == 0 or q != q or abs(q) == float("inf")) else math.copysign(float(math.floor(abs(q))), q)
+        elif op == "mod":
+            if y == 0 or abs(x) == float("inf") or x != x or y != y: return None
+            if abs(y) == float("inf"): return None
+            v = math.fmod(x, y)
+            if v * y < 0: v += y
+        elif op == "tmod":
+            if y == 0 or abs(x) == float("inf") or x != x or y != y: return None
+            r = math.fmod(abs(x), abs(y)) if abs(y) != float("inf") else abs(x)
+            v = -r if x < 0 else r
+        elif op == "pow": v = math.pow(x, y)
+        elif op == "unm": v = -x
+        else: return None
+    except (OverflowError, ValueError, ZeroDivisionError):
+        return None
+    res32 = ("float32" in (lt, rt)) and "float64" not in (lt, rt)
+    if res32 and v == v and abs(v) != float("inf"):
+        v = _f32(float("%.9g" % v))
+    return v
+
+
+def float_key(op, lt, rt, a, b, const_val, text):
+    """Key of a float divergence: designated witnesses by exact input; otherwise a key naming the code
+    site, operator and operand types, and only when the baked constant is what the unchanged code is
+    predicted to bake (float32 folded in double precision / sign of zero of %%%); else the exact input."""
+    if (op, lt, rt, a, b) in FLOAT_WITNESSES:
+        return "case:float:" + text
+    pred = predict_float_fold(op, lt, rt, a, b)
+    same = pred is not None and const_val is not None and (pred == const_val or (pred != pred and const_val != const_val))
+    if same and op in ("tdiv", "tmod") and not lt.startswith("float") and const_val == 0:
+        return "types.lua:IntegralType.%s:integer-valued-float-operands-lose-sign-of-zero:%s:%s" % (op, lt, rt)
+    if same and "float32" in (lt, rt or ""):
+        return "types.lua:float-binary-op:float32-folded-in-double:%s:%s:%s" % (op, lt, rt)
+    if same and op == "tmod" and isinstance(a, float) and a == 0 and str(a).startswith("-"):
+        return "types.lua:FloatType.tmod:sign-of-zero:%s:%s" % (lt, rt)
+    return "case:float:" + text
+
+
+FLOAT_WITNESSES = [("tdiv", "int32", "float32", -7, _f32(0.1)), ("sub", "float32", "int8", _f32(1 / 3.0), 1),
+                   ("tmod", "float64", "int8", -0.0, -128), ("pow", "float32", "int32", -2.5, 2147483647),
+                   ("tmod", "int32", "float64", -7, -1.0), ("tdiv", "uint8", "float64", 255, -9223372036854775807)]
+# witnesses of the float defects repaired by 5e677f6 (must pass)
+FLOAT_FIXED_WITNESSES = [("idiv", "float64", "uint8", 4, 0), ("add", "float64", "float64", 9223372036854775807, 1),
+                         ("tdiv", "float64", "float64", -1.0, 2.0), ("mul", "float64", "float64", 4611686018427387904, 4)]
+
+
 def float_candidates(rng, n):
     import struct
     f32 = lambda x: struct.unpack("<f", struct.pack("<f", x))[0]
@@ -684,7 +815,7 @@ def float_candidates(rng, n):
             "uint8": [0, 1, 200, 255], "uint64": [0, 3, 18446744073709551615]}
     # designated: an integer-valued float constant divided by an integer zero (the fold runs the
     # Lua integer operator and the compiler dies with a traceback)
-    out = [("idiv", "float64", "uint8", 4, 0), ("add", "float64", "float64", 9223372036854775807, 1), ("tdiv", "float64", "float64", -1.0, 2.0)]
+    out = list(FLOAT_FIXED_WITNESSES) + list(FLOAT_WITNESSES)
     types = ["float64", "float32"] + list(ints)
     while len(out) < n:
         op = rng.choice(FLOAT_OPS)
@@ -783,6 +914,156 @@ def _half_constant_witnesses():
 
 
 HALF_CONSTANT_WITNESSES = _half_constant_witnesses()
+
+
+# nested expressions: the inner result is consumed directly by the outer operator (n) vs stored first (s)
+def _nested_probes():
+    out = []
+    vals = {"int8": [(127, 1), (-128, -1), (100, 27), (5, 3)], "uint8": [(200, 100), (100, 200), (255, 1), (5, 3)],
+            "int16": [(32767, 1), (-32768, -1)], "uint16": [(65535, 1), (1, 2)], "int32": [(2147483647, 1), (5, 3)], "uint32": [(4294967295, 1), (1, 2)]}
+    for t, pairs in vals.items():
+        for (a, b) in pairs:
+            for o1 in ("add", "sub", "mul"):
+                out.append((o1, "gt", t, t, t, a, b, 0))
+                out.append((o1, "idiv", t, t, t, a, b, 2))
+                out.append((o1, "lt", t, t, "uint8" if TYPES_SIGNED.get(t, True) else "int8", a, b, 200 if TYPES_SIGNED.get(t, True) else -1))
+    return out
+
+
+TYPES_SIGNED = {"int8": True, "int16": True, "int32": True, "uint8": False, "uint16": False, "uint32": False}
+NESTED_PROBES = _nested_probes()
+
+# untyped literals on the right (`A op 300`) and on the left (`300 op A`)
+def _untyped_probes():
+    out = []
+    for t, avals in (("int8", [5, -128, 127]), ("uint8", [200, 0]), ("int16", [-32768, 300]), ("int32", [2147483647, -7]), ("uint32", [4294967295]),
+                     ("int64", [9223372036854775807, -1]), ("uint64", [18446744073709551615, 5])):
+        for a in avals:
+            for op in ("add", "sub", "mul", "idiv", "mod", "band", "bor", "lt", "eq"):
+                for lit_ in (1, 2, 300, -1, 70000, 4294967296, -129):
+                    if op in ("idiv", "mod") and lit_ == 0:
+                        continue
+                    out.append((op, t, a, lit_, "r"))
+                    if op in ("add", "sub", "mul", "lt"):
+                        out.append((op, t, a, lit_, "l"))
+    return out
+
+
+UNTYPED_PROBES = _untyped_probes()
+
+
+def nested_text(k, o1, o2, t1, t2, t3, a, b, c):
+    s1, s2 = OPSYM[o1], OPSYM[o2]
+    return ("do\n  local n = (id_%s(%d) %s id_%s(%d)) %s id_%s(%d)\n  local t = id_%s(%d) %s id_%s(%d)\n  local s = t %s id_%s(%d)\n"
+            "  printf(\"P %d nested - |\") outv(n) printf(\" |\") outv(s) printf(\" | - - | - -\\n\")\nend\n") % (
+                t1, a, s1, t2, b, s2, t3, c, t1, a, s1, t2, b, s2, t3, c, k)
+
+
+def untyped_text(k, op, t, a, l, side):
+    sym = OPSYM[op]
+    lit_ = "(%d)" % l if l < 0 else "%d" % l
+    ce = ("A %s %s" % (sym, lit_)) if side == "r" else ("%s %s A" % (lit_, sym))
+    re_ = ("id_%s(A) %s %s" % (t, sym, lit_)) if side == "r" else ("%s %s id_%s(A)" % (lit_, sym, t))
+    return ("do\n  local A: %s <comptime> = %d\n  local c <comptime> = %s\n  printf(\"P %d %%s %%s |\", #[c.type.name]#, #[tostring(c.value)]#)\n"
+            "  outv(c) printf(\" |\")\n  local r = %s\n  outv(r) printf(\" | - - | - -\\n\")\nend\n") % (t, a, ce, k, re_)
+
+
+def extra_probe_stream(ctx, mdriver, violation, stats):
+    """Nested-expression and untyped-literal probes (fixed lists), one program each."""
+    work = os.path.join(ctx.work, "probes")
+    os.makedirs(work, exist_ok=True)
+    ids = "".join("local function id_%s(x: %s): %s <noinline> return x end\n" % (t, t, t) for t in ITYPES)
+    # ---- nested
+    src = os.path.join(work, "nested.nelua")
+    exe = os.path.join(work, "nested")
+    vlib.write_if_changed(src, PROBE_HEADER + ids + "".join(nested_text(k, *p) for k, p in enumerate(NESTED_PROBES)))
+    rc, out, err = vlib.nelua_build(src, exe, cache_dir=os.path.join(work, "cache_nested_%d" % ctx.seed), extra=["--no-cache"])
+    if rc != 0:
+        violation("nested-probe-program-does-not-compile", "nested probe program rejected: %s" % (out + err)[-400:], {}, failing=False, kind="harness")
+    else:
+        rc, out, err = vlib.sh(["bash", "-c", "ulimit -c 0; exec '%s'" % exe], timeout=120)
+        lines = {int(l.split()[1]): l for l in out.split("\n") if l.startswith("P ")}
+        m_in = ["rtnest %s %s %s %s %s %s %s %s" % (o1, o2, tb(t1), tb(t2), tb(t3), hx(a), hx(b), hx(c)) for (o1, o2, t1, t2, t3, a, b, c) in NESTED_PROBES]
+        m_out = run_parallel([mdriver], m_in, 1)
+        def canon_model(x):
+            w = x.split()
+            if w[0] == "B": return ["boolean", w[1]]
+            if w[0] == "V": return [[n for n in ITYPES if TYPES[n] == (int(w[1]), w[2] == "1")][0], str(unhx(w[3]))]
+            return ["?", x]
+        for k, (pr, mo) in enumerate(zip(NESTED_PROBES, m_out)):
+            if k not in lines:
+                violation("nested-probe-missing", "nested probe %d printed nothing: %s" % (k, err[-200:]), {}, failing=False, kind="harness")
+                continue
+            stats["nested_probes"] = stats.get("nested_probes", 0) + 1
+            o1, o2, t1, t2, t3, a, b, c = pr
+            text = "(%s(%d) %s %s(%d)) %s %s(%d)" % (t1, a, OPSYM[o1], t2, b, OPSYM[o2], t3, c)
+            parts = [x.split() for x in lines[k].split("|")]
+            n, st = parts[1], parts[2]
+            mn, ms = [canon_model(x.strip()) for x in mo.split("|")]
+            # the model's value type for a V result names the type by ity; compare values (and type up to ity)
+            def same(impl, mod):
+                return impl[1] == mod[1] and (impl[0] == mod[0] or (impl[0] in TYPES and mod[0] in TYPES and TYPES[impl[0]] == TYPES[mod[0]]))
+            if not same(n, mn) or not same(st, ms):
+                violation("model-mismatch:nested", "nested model differs on `%s`: implementation nested %s stored %s, model nested %s stored %s" % (text, n, st, mn, ms),
+                          {"case": text, "line": lines[k], "model": mo}, failing=False, kind="correspondence")
+            if n != st:
+                stats["nested_divergences"] = stats.get("nested_divergences", 0) + 1
+                violation("nested:" + text, "C02 `%s`: consumed directly by the outer operator the result is %s %s, stored in a variable of its type first it is %s %s (C computes the inner operator in int and the emitter writes no cast)" %
+                          (text, n[0], n[1], st[0], st[1]), {"case": text, "line": lines[k], "replay": "see harness of checks/C02.py:nested_text"})
+    # ---- untyped literals
+    src = os.path.join(work, "untyped.nelua")
+    exe = os.path.join(work, "untyped")
+    m_in = []
+    for (op, t, a, l, side) in UNTYPED_PROBES:
+        if side == "r":
+            m_in.append("fold %s %s %s %s %s 0 1" % (op, tb(t), tb("int64"), hx(a), hx(l)))
+        else:
+            m_in.append("fold %s %s %s %s %s 1 0" % (op, tb("int64"), tb(t), hx(l), hx(a)))
+    m_out = run_parallel([mdriver], m_in, 1)
+    keep = []
+    for pr, mo in zip(UNTYPED_PROBES, m_out):
+        w = mo.split()
+        if w[0] == "T":
+            bits, sg, v = int(w[1]), w[2] == "1", unhx(w[3])
+            lo, hi = (-(1 << (bits - 1)), (1 << (bits - 1)) - 1) if sg else (0, (1 << bits) - 1)
+            if lo <= v <= hi:
+                keep.append((pr, mo))
+        elif w[0] == "B":
+            keep.append((pr, mo))
+    vlib.write_if_changed(src, PROBE_HEADER + ids + "".join(untyped_text(k, *p) for k, (p, _) in enumerate(keep)))
+    rc, out, err = vlib.nelua_build(src, exe, cache_dir=os.path.join(work, "cache_untyped_%d" % ctx.seed), extra=["--no-cache"])
+    if rc != 0:
+        violation("untyped-probe-program-does-not-compile", "untyped-literal probe program rejected: %s" % re.sub(r"\s+", " ", out + err)[-500:], {}, failing=False, kind="harness")
+        return
+    rc, out, err = vlib.sh(["bash", "-c", "ulimit -c 0; exec '%s'" % exe], timeout=120)
+    lines = {int(l.split()[1]): l for l in out.split("\n") if l.startswith("P ")}
+    for k, ((op, t, a, l, side), mo) in enumerate(keep):
+        if k not in lines:
+            violation("untyped-probe-missing", "untyped probe %d printed nothing: %s" % (k, err[-200:]), {}, failing=False, kind="harness")
+            continue
+        stats["untyped_probes"] = stats.get("untyped_probes", 0) + 1
+        text = ("%s(%d) %s %d" % (t, a, OPSYM[op], l)) if side == "r" else ("%d %s %s(%d)" % (l, OPSYM[op], t, a))
+        parts = [x.split() for x in lines[k].split("|")]
+        ctype, craw, r = parts[0][2], parts[0][3], parts[2]
+        x, y = (a, l) if side == "r" else (l, a)
+        E = exact(op, t if side == "r" else "int64", x, y)
+        if mo.startswith("T "):
+            w = mo.split()
+            if TYPES.get(ctype) != (int(w[1]), w[2] == "1") or int(craw) != unhx(w[3]):
+                violation("model-mismatch:untyped-fold", "fold of `%s` (untyped literal) is (%s, %s), model says %s" % (text, ctype, craw, mo),
+                          {"case": text, "line": lines[k], "model": mo}, failing=False, kind="correspondence")
+            # property: run time (operation type = the typed operand's type promoted for the literal) vs fold
+            T = r[0]
+            if T in TYPES and E is not None and not isinstance(E, bool):
+                if inrange(T, a) and inrange(T, l) and int(r[1]) != wrap(T, E):
+                    violation("case:untyped:" + text, "C02 `%s`: run time gives %s %s, the exact result %d reduced to %s is %d" % (text, r[0], r[1], E, T, wrap(T, E)),
+                              {"case": text, "line": lines[k]})
+                if inrange(T, E) and inrange(T, a) and inrange(T, l) and int(craw) != E:
+                    violation("case:untyped:" + text, "C02 `%s`: folded %s (%s), exact result %d representable in the run-time result type %s" % (text, craw, ctype, E, T),
+                              {"case": text, "line": lines[k]})
+        elif mo.startswith("B "):
+            if ctype != "boolean" or (craw == "true") != E or (r[1] == "1") != E:
+                violation("case:untyped:" + text, "C02 `%s`: folded %s, run time %s, exact %s" % (text, craw, r[1], E), {"case": text, "line": lines[k]})
 
 
 def probe_stream(ctx, mdriver, violation):
@@ -901,7 +1182,11 @@ def probe_stream(ctx, mdriver, violation):
                     if x[0] == "-":
                         continue
                     if canon(x) != canon(r):
-                        cls = "float:%s:%s" % (name, op)
+                        try:
+                            cv = float("nan") if "nan" in bk[1] else (float("inf") if bk[1] == "inf" else float("-inf") if bk[1] == "-inf" else float.fromhex(bk[1]))
+                        except ValueError:
+                            cv = None
+                        cls = float_key(op, lt, rt, a, b, cv, text + ":" + name) if name == "constant" else "case:float:" + text + ":" + name
                         stats["float_divergences"] = stats.get("float_divergences", {})
                         stats["float_divergences"][cls] = stats["float_divergences"].get(cls, 0) + 1
                         violation(cls, "C02 (floats, correspondence only) `%s`: %s form gives %s %s, all-run-time form gives %s %s (folded attr.value %s %s)" %
